@@ -630,7 +630,7 @@ func init() {
 				// so post-processing has something to move
 				tmpl = 1 + pgen.NTemplates + (pi/3-1)%pgen.NFileTemplates
 			}
-			dynMap := pi%5 == 1
+			dynMap := pi%5 == 4
 			if dynMap {
 				// skeleton 4: a stage mapped over a run-time sized collection, its
 				// merged outputs consumed by a second mapped stage; the forks other
